@@ -431,16 +431,18 @@ def main():
     if nrep != len(chosen) and not counts["fail"]:
         raise vlib.InfraError("replayed %d of %d schedules" % (nrep, len(chosen)))
     # binding self-test: a schedule whose predicted outcome is corrupted must be reported by the harness
-    victim = next((x for x in calm if any(len(g) < 2 for g in x["final"]["got"].values())), None)
-    if victim is None:
-        raise vlib.InfraError("no schedule suitable for the binding self-test")
-    bad = json.loads(json.dumps(victim))
-    cname = next(c for c, g in bad["final"]["got"].items() if len(g) < 2)
-    bad["final"]["got"][cname] = [1, 2]
-    st, _ = replay_parallel(binp, [bad], 1, sc, 10)
-    if st[0][1].get("outcome") != "fail" or st[0][1].get("sig") != "Deliver.NotReceived":
-        raise vlib.InfraError("binding self-test: corrupted prediction (client %s got [1,2]) was not reported: %r" % (cname, st[0][1]))
-    ck.set("binding_selftest_schedule", "corrupted prediction reported: " + st[0][1]["what"])
+    # (only meaningful while the tree behaves: with violations on the table the verdict is exit 1 anyway)
+    if not ck._nviol:
+        victim = next((x for x in calm if any(len(g) < 2 for g in x["final"]["got"].values())), None)
+        if victim is None:
+            raise vlib.InfraError("no schedule suitable for the binding self-test")
+        bad = json.loads(json.dumps(victim))
+        cname = next(c for c, g in bad["final"]["got"].items() if len(g) < 2)
+        bad["final"]["got"][cname] = [1, 2]
+        st, _ = replay_parallel(binp, [bad], 1, sc, 10)
+        if st[0][1].get("outcome") != "fail" or st[0][1].get("sig") != "Deliver.NotReceived":
+            raise vlib.InfraError("binding self-test: corrupted prediction (client %s got [1,2]) was not reported: %r" % (cname, st[0][1]))
+        ck.set("binding_selftest_schedule", "corrupted prediction reported: " + st[0][1]["what"])
     acts = collections.Counter(l["a"] for s in chosen for l in s["steps"])
     need = {"reg", "wdone", "wfail", "cancel", "exitctx", "unreg", "bspawn", "run", "deliver"} | ({"abandon"} if design == "done" else set())
     if not need <= set(acts):
@@ -461,7 +463,7 @@ def main():
         ck.finish()
 
     # --- VAL: seeded stress, every step logged, validated by TraceSse ---------------------------------
-    episodes = 1500 if thorough else 250
+    episodes = (6000 if design == "done" else 1500) if thorough else 250   # every death of a "close" tree costs a process
     tpath = os.path.join(sc, "stress-trace.ndjson")
     res, fails, summary, restarts2 = run_subject(
         binp, lambda i: ["stress", str(ck.seed), str(i), str(episodes), tpath], 0, episodes)
@@ -522,11 +524,9 @@ def main():
     nres, nfails, nsum, _ = run_subject(binp, lambda i: ["net", str(ck.seed + i), str(rounds)], 0, 1)
     for f in nfails:
         ck.violation(f["sig"], "net: " + f["what"], f["case"])
-    if 0 in nres and nres[0]["outcome"] == "died":
-        pass
     died_net = [r for k, r in nres.items() if isinstance(k, int) and r["outcome"] == "died"]
     for r in died_net:
-        if "send on closed channel" in r.get("msg", "") and r.get("stack_in_send"):
+        if design == "close" and "send on closed channel" in r.get("msg", "") and r.get("stack_in_send"):
             ck.violation(ROOT, "net: the process died with 'panic: send on closed channel' in sse.Handler.Send's delivery goroutine while real HTTP clients were disconnecting",
                          {"round": r.get("i"), "seed": ck.seed, "msg": r.get("msg")})
         else:
